@@ -133,6 +133,66 @@ def _s(name):
     return {"name": name, "kind": "scalar", "ptr": False, "gotype": "string"}
 
 
+W_UNNAMED = '''package wunnamed
+
+''' + IMPORTS + '''
+type U interface {
+	shoot.RestClient[U]
+
+	//shoot: Get("/b")
+	A(context.Context, int) (*http.Response, error)
+}
+'''
+
+W_PTRPATH = '''package wptrpath
+
+''' + IMPORTS + '''
+type P interface {
+	shoot.RestClient[P]
+
+	//shoot: Get("/p/{id}")
+	PtrPath(ctx context.Context, id *string) (*http.Response, error)
+}
+'''
+
+W_LIT = '''package wlit
+
+''' + IMPORTS + '''
+type L interface {
+	//shoot: headers={X-Sig:a"b\\c}
+	shoot.RestClient[L]
+
+	//shoot: Get(/a\\x41/{id})
+	//shoot: alias={n:q"k}
+	Lit(ctx context.Context, id string, n int) (*http.Response, error)
+}
+'''
+
+W_DUR = '''package wdur
+
+import (
+	"context"
+	"net/http"
+	"time"
+
+	"github.com/lopolopen/shoot"
+)
+
+type D interface {
+	shoot.RestClient[D]
+
+	//shoot: Get("/a")
+	Dur(ctx context.Context, d time.Duration, n int) (*http.Response, error)
+}
+'''
+
+WLIT_PKG = {"name": "wlit", "qpkg": None, "ifaces": [], "structs": []}
+WLIT_CALLS = [("K_rest_literal_unescaped", _m("Lit", [_s("id"), {"name": "n", "kind": "scalar", "ptr": False, "gotype": "int"}]),
+               {"id": ("str", "x"), "n": ("int", 5)})]
+WDUR_PKG = {"name": "wdur", "qpkg": None, "ifaces": [], "structs": []}
+WDUR_CALLS = [("K_rest_qualified_scalar", _m("Dur", [{"name": "d", "kind": "scalar", "ptr": False, "gotype": "time.Duration"},
+                                                     {"name": "n", "kind": "scalar", "ptr": False, "gotype": "int"}]),
+               {"d": ("raw", "3 * time.Second"), "n": ("int", 5)})]
 WMAPS_PKG = {"name": "wmaps", "qpkg": None, "ifaces": [], "structs": []}
 WMAPS_CALLS = [
     ("K_rest_two_maps", _m("TwoMaps", [{"name": "a", "kind": "map", "ptr": False, "maptype": "string"},
@@ -157,6 +217,10 @@ def witness_packages(modname):
         "wdup": {"files": {"wdup/wdup.go": W_DUP}, "type": "Dup"},
         "wrun": {"files": {"wrun/wrun.go": W_RUN, "wrun/other.go": W_RUN_OTHER}, "type": "W"},
         "wmaps": {"files": {"wmaps/wmaps.go": W_MAPS}, "type": "M"},
+        "wunnamed": {"files": {"wunnamed/wunnamed.go": W_UNNAMED}, "type": "U"},
+        "wptrpath": {"files": {"wptrpath/wptrpath.go": W_PTRPATH}, "type": "P"},
+        "wlit": {"files": {"wlit/wlit.go": W_LIT}, "type": "L"},
+        "wdur": {"files": {"wdur/wdur.go": W_DUR}, "type": "D"},
     }
 
 
@@ -197,14 +261,15 @@ def run_witnesses(run, shoot, mod, wit, sem):
 def witness_cases(wit, st, first_client, first_id):
     """calls of the runtime witnesses for the driver (a package only if shoot produced its client)"""
     clients, cases = [], []
-    for pname, iname, pkg, calls in (("wrun", "W", WRUN_PKG, WRUN_CALLS), ("wmaps", "M", WMAPS_PKG, WMAPS_CALLS)):
+    for pname, iname, pkg, calls in (("wrun", "W", WRUN_PKG, WRUN_CALLS), ("wmaps", "M", WMAPS_PKG, WMAPS_CALLS),
+                                     ("wlit", "L", WLIT_PKG, WLIT_CALLS), ("wdur", "D", WDUR_PKG, WDUR_CALLS)):
         if st[pname]["shoot"]["rc"] != 0:
             continue
         var = "cw%d" % (first_client + len(clients))
         clients.append((var, pname, iname, ""))
         for kid, m, args in calls:
             cid = first_id + len(cases)
-            cases.append({"id": cid, "client": var, "base": "", "pkg": pkg, "iface": {"name": iname}, "method": m,
+            cases.append({"id": cid, "client": var, "base": ("", []), "pkg": pkg, "iface": {"name": iname}, "method": m,
                           "args": dict(args, ctx=("ctx", cid, False)), "finding": kid})
     return clients, cases
 
@@ -303,6 +368,39 @@ def handlers(run, shoot, mod, wit, st, wcases, wobs):
             return "correct"
         return "other: %s" % str(o)[:300]
 
+    def refused(name):
+        def h(entry):
+            r = st[name]["shoot"]
+            if r["timed_out"] or r["panicked"]:
+                return "other: shoot %s" % r["err"][-300:]
+            return "correct" if r["rc"] != 0 else "buggy"
+        return h
+
+    def literal(entry):
+        r = st["wlit"]["shoot"]
+        if r["rc"] != 0:
+            return "buggy" if ("format" in r["err"] or "expected" in r["err"]) else "other: shoot exits %d: %s" % (r["rc"], r["err"][-300:])
+        o = need("K_rest_literal_unescaped")
+        if o["out"] != "sent":
+            return "other: %s" % str(o)[:300]
+        sig = [v for k, v in o["headers"] if k == "X-Sig"]
+        if sig == ['a"b\\c'] and o["path"] == "/a\\x41/x" and o["query"] == [['q"k', "5"]]:
+            return "correct"
+        if o["path"] == "/aA/x":
+            return "buggy"
+        return "other: %s" % str(o)[:300]
+
+    def qualified_scalar(entry):
+        r = st["wdur"]["shoot"]
+        if r["rc"] != 0:
+            return "other: shoot exits %d: %s" % (r["rc"], r["err"][-300:])
+        o = need("K_rest_qualified_scalar")
+        if o["out"] == "sent" and o["query"] == [["d", "3s"], ["n", "5"]]:
+            return "correct"
+        if o["out"] == "sent" and o["query"] == [["n", "5"]]:
+            return "buggy"
+        return "other: %s" % str(o)[:300]
+
     def alias_dup(entry):
         rr = st["wdup"]["runs"]
         if any(rc != 0 for rc, _ in rr):
@@ -312,4 +410,6 @@ def handlers(run, shoot, mod, wit, st, wcases, wobs):
     return {"K_rest_ctx_global": ctx_global, "K_rest_body_no_struct": body_no_struct, "K_rest_ptr_map": ptr_map,
             "K_rest_nil_struct_ptr": nil_struct_ptr, "K_rest_struct_other_file": other_file,
             "K_rest_path_percent": path_percent, "K_rest_subst_rescan": subst_rescan,
-            "K_rest_header_value_trim": header_trim, "K_rest_two_maps": two_maps, "K_rest_alias_dup": alias_dup}
+            "K_rest_header_value_trim": header_trim, "K_rest_two_maps": two_maps, "K_rest_alias_dup": alias_dup,
+            "K_rest_unnamed_param": refused("wunnamed"), "K_rest_ptr_path_param": refused("wptrpath"),
+            "K_rest_literal_unescaped": literal, "K_rest_qualified_scalar": qualified_scalar}
